@@ -41,6 +41,8 @@ for pid in sys.argv[1:]:
             m = re.search(r"-run[ =]'?\"?([^ '\"]+)", meta.get("demo_run", ""))
             if m:
                 run = "go test -vet=off -count=1 -run '%s' ./%s/" % (m.group(1), pkg)
+            if "-race" in meta.get("demo_run", ""):
+                run = run.replace("go test ", "go test -race ")
             rc0, out0 = sh(run, wt)
             ran.append({"cmd": run + "   # unchanged tree", "rc": rc0})
             if rc0 != 0 or "no tests to run" in out0:
